@@ -137,7 +137,8 @@ type Fault struct {
 	K     int    `json:"k"`
 	Class string `json:"class"` // fatal|slowfatal (write: blocks for Us, then fails)|deadline|zero|stall (the operation takes effect Us later)|stallret (write only: the packet leaves at once, WriteTo returns Us later)
 	Us    int64  `json:"us,omitempty"`
-	Anon  bool   `json:"anon,omitempty"` // the injected error's text does not name actor and operation
+	Anon  bool   `json:"anon,omitempty"`  // the injected error's text does not name actor and operation
+	Errno string `json:"errno,omitempty"` // the injected error wraps this errno (EPERM, EACCES, ENOBUFS, EINVAL, ENETDOWN, EHOSTUNREACH, EMSGSIZE, ErrPermission)
 }
 
 // Listener is a simulated SACK-capable (or not) TCP target. The kernel completes the three-way
